@@ -200,13 +200,13 @@ def gen_history(rng):
     # margin so that the residual bound is meaningful.  Random sparse data violate this now and then.
     for attempt in range(40):
         ok = True
-        if data_class == 'regular':
+        if data_class in ('regular', 'rank_singular', 'dependent_columns'):
             keep = [j for j in range(n) if j != zero_col]
             rows = [[G[j * cd + i] for j in keep] for i in range(cd)] + [[A[j * p + i] for j in keep] for i in range(p)]
             rk, ratio = CR.numeric_rank(rows)
             rka, ratio_a = CR.numeric_rank([[A[j * p + i] for j in range(n)] for i in range(p)]) if p else (0, 1.0)
             ok = rk == len(keep) and ratio > 0.02 and rka == p and (p == 0 or ratio_a > 0.02)
-            if ok and solver == 'chol2':
+            if ok and solver == 'chol2' and data_class == 'regular':
                 # chol2 factors S = GG'W^-2 GG + H itself: G alone must have full column rank on those columns
                 rkg, ratio_g = CR.numeric_rank([[G[j * cd + i] for j in keep] for i in range(cd)])
                 ok = rkg == len(keep) and ratio_g > 0.02
@@ -214,6 +214,9 @@ def gen_history(rng):
             break
         G = gen.sym_columns(rng, dims, n, 1.0)
         A = gen.rmat(rng, p, n)
+        if data_class == 'dependent_columns':
+            for i in range(cd):
+                G[cd + i] = -2.0 * G[i]
         if zero_col is not None:
             for i in range(cd):
                 G[zero_col * cd + i] = 0.0
